@@ -45,7 +45,9 @@ def veq(a, b, rel):
 
 
 def runner_totality(tier, seed):
-    return fuzzrun.campaign(ID, "totality", "fuzz_script", tier, seed, SECONDS[tier], max_len=512)
+    from c10_params import seed_corpus      # long deterministic inputs, so that the decoder does not run out of bytes after two commands
+    return fuzzrun.campaign(ID, "totality", "fuzz_script", tier, seed, SECONDS[tier], max_len=512, corpus_dirs=[seed_corpus("seed_script")],
+                            extra_args=["-len_control=0"])
 
 
 # ------------------------------------------------------------------------------------------------------------
@@ -338,7 +340,7 @@ def check_grid(spec, ctx):
 
 @st.composite
 def spec_equiv(draw, tier):
-    kind = draw(st.sampled_from(["config", "configfile", "addforce", "load", "loadstr", "save", "biasstate"]))
+    kind = draw(st.sampled_from(["config", "configfile", "addforce", "load", "loadstr", "save", "biasstate", "reset"]))
     vs = draw(zoo.variables(2, allow_ext=False, allow_periodic=(kind != "addforce")))
     tf = 1
     nb = draw(st.sampled_from([1, 2]))
@@ -520,6 +522,38 @@ def check_equiv(spec, ctx):
             return Outcome(False, msg="final states differ between script load and engine-path load", sig="equiv:load_state", case_text=cb)
         return Outcome(True, nontrivial=hist, cls=cls, strata=[kind], case_text=cb)
 
+    if kind == "reset":
+        # 'cv reset' followed by the same configuration is a fresh module: default object names, loading of an earlier state and
+        # the following steps are those of a process that never held the first configuration
+        import re as _re
+        cfg_unnamed = _re.sub(r"\n  name b\d+", "", cfg)         # biases get their default names (<type><n>)
+        tl1 = traj_lines(spec, 0, K, nat)
+        tl2 = traj_lines(spec, K, T, nat)
+        c1, r1 = run(head + ["config <<END\n%s\nEND" % cfg_unnamed] + tl1 + ["savestr"])
+        if r1.crashed or r1.of("config")[0]["rc"]:
+            return Outcome(False, msg="crash/rejected %s" % r1.of("config")[:1], sig="gen_invalid", case_text=c1)
+        state = r1.of("savestr")[0]["state"]
+        ca, ra = run(head + ["config <<END\n%s\nEND" % cfg_unnamed, "loadstr " + pct(state)] + tl2 + [q("list", "biases"), "savestr"])
+        cb, rb = run(head + ["config <<END\n%s\nEND" % cfg_unnamed] + tl1 + [q("reset"), "setstep 0", "config <<END\n%s\nEND" % cfg_unnamed,
+                             "loadstr " + pct(state)] + tl2 + [q("list", "biases"), "savestr"])
+        if ra.crashed or rb.crashed:
+            return Outcome(False, msg="crash %s %s" % (ra.stderr[-300:], rb.stderr[-300:]), sig="crash", case_text=cb)
+        if ra.of("load")[0]["rc"] != 0:
+            return Outcome(False, msg="load failed in the fresh process %s" % ra.of("load")[0], sig="gen_invalid", case_text=ca)
+        if rb.of("load")[0]["rc"] != 0 or rb.of("load")[0]["errbits"]:
+            return Outcome(False, msg="after 'cv reset' and the same configuration, the state of the first run is rejected: %s" % rb.of("load")[0]["errs"],
+                           sig="equiv:reset_load", case_text=cb)
+        if ra.of("script")[-1]["result"] != rb.of("script")[-1]["result"]:
+            return Outcome(False, msg="bias names after 'cv reset' + configuration are %r, in a fresh module %r" % (
+                rb.of("script")[-1]["result"], ra.of("script")[-1]["result"]), sig="equiv:reset_names", case_text=cb)
+        nb_ = len(tl2) // 3
+        o = same_steps(rb.of("step")[-nb_:], ra.of("step")[-nb_:], "cv_reset", cb)
+        if o:
+            return o
+        if ra.of("savestr")[-1]["state"] != rb.of("savestr")[-1]["state"]:
+            return Outcome(False, msg="final states differ between 'cv reset' + configuration + load and a fresh module", sig="equiv:reset_state", case_text=cb)
+        return Outcome(True, nontrivial=hist, cls=cls, strata=[kind], case_text=cb)
+
     if kind == "biasstate":
         b = z["biases"][0]
         tl_all = traj_lines(spec, 0, T, nat)
@@ -565,7 +599,7 @@ def view(spec):
 
 
 REQUIRED_STRATA = {"all": ["agreement:queries", "agreement:gradients", "grid:grid", "grid:outside"] +
-                   ["equivalence:" + k for k in ("config", "configfile", "addforce", "load", "loadstr", "save", "biasstate")]}
+                   ["equivalence:" + k for k in ("config", "configfile", "addforce", "load", "loadstr", "save", "biasstate", "reset")]}
 
 PARTS = {
     "totality": {"runner": runner_totality, "replay": fuzzrun.replay_fuzz},
